@@ -112,7 +112,9 @@ fn graph_mode(raw: &[Value], trace: &Path, scratch: &Path) -> Summary {
                     s
                 };
                 for sel in selections {
-                    let roots: Vec<_> = sel.iter().map(|n| graph.node_weights().find(|w| w.buildpack_id.to_string() == bp_id(n)).expect("root")).collect();
+                    // (a buildpack missing from the graph was reported above; no order can be asked for it)
+                    let roots: Vec<_> = sel.iter().filter_map(|n| graph.node_weights().find(|w| w.buildpack_id.to_string() == bp_id(n))).collect();
+                    if roots.len() != sel.len() { continue; }
                     match get_dependencies(&graph, &roots) {
                         Ok(order) => {
                             let order: Vec<String> = order.iter().map(|n| n.buildpack_id.to_string().trim_start_matches("verif/").to_string()).collect();
@@ -161,7 +163,11 @@ fn graph_mode(raw: &[Value], trace: &Path, scratch: &Path) -> Summary {
                     let mut sel = nodes.clone();
                     r.shuffle(&mut sel);
                     sel.truncate(r.usize(1..=nodes.len()));
-                    let roots: Vec<_> = sel.iter().map(|n| graph.node_weights().find(|w| w.buildpack_id.to_string() == bp_id(n)).expect("root")).collect();
+                    let roots: Vec<_> = sel.iter().filter_map(|n| graph.node_weights().find(|w| w.buildpack_id.to_string() == bp_id(n))).collect();
+                    if roots.len() != sel.len() {
+                        bad.push(Mismatch { signature: "graph nodes differ from the libcnb/composite buildpacks of the workspace".into(), detail: format!("a buildpack of {sel:?} is no node of the graph"), case: json!({"deps": deps}) });
+                        continue;
+                    }
                     match get_dependencies(&graph, &roots) {
                         Ok(order) => events.push(json!({"kind": "order", "deps": deps, "roots": sel, "order": order.iter().map(|n| n.buildpack_id.to_string().trim_start_matches("verif/").to_string()).collect::<Vec<_>>(), "ok": true})),
                         Err(e) => events.push(json!({"kind": "order", "deps": deps, "roots": sel, "order": [], "ok": false, "error": format!("{e}")})),
